@@ -18,6 +18,7 @@ model('__init__.DataConversionError', fields={'exception': 'Ref[builtin:ValueErr
 model('__init__.SubstitutionReplacementError', fields={'source': 'str', 'name': 'str'})
 
 inline('__init__.ConfigurationError.__init__',
+       '__init__.DataConversionError.__init__',
        '__init__._ParseError.__init__',
        '__init__.SchemaError.__init__',
        '__init__.SchemaResourceError.__init__',
